@@ -92,7 +92,7 @@ var props = map[string]*propSpec{
 		Level: "exploration",
 		Rule: "the window / chunk / credit rules of the wire monitor (un-credited bytes on the wire <= advertised window, <= 16384 message bytes per frame, cumulative credit <= data delivered) run on every frame of the message-flow, flow-control and teardown families; family overrun: a raw peer (client against the real server, server against the real client, both network roles) overruns the 64 KiB window by 1 byte .. 16 windows, in one message or many, in chunks of 1000 / 16384 / 60000 bytes, after 0-2 genuinely consumed messages, while the application is parked, with a bystander in flight and a fresh RPC afterwards; flowcore checks the receiver in isolation; " +
 			"non-trivial = the overrun was sent / a message spanned several chunks; distinct = distinct schedule digests",
-		Families:       []famPlan{{Family: "overrun", Weight: 3}, {Family: "msgflow", Weight: 2}, {Family: "flow", Weight: 1, Batch: 10}, {Family: "flowcore", Weight: 1}},
+		Families:       []famPlan{{Family: "overrun", Weight: 3}, {Family: "msgflow", Weight: 2}, {Family: "flow", Weight: 1, Batch: 10}, {Family: "flowcore", Weight: 1}, {Family: "rawfuzz", Weight: 1}},
 		QuickBudget:    45 * time.Second,
 		ThoroughBudget: 15 * time.Minute,
 	},
@@ -102,6 +102,14 @@ var props = map[string]*propSpec{
 			"non-trivial = at least two RPCs were started concurrently / the deviation was sent; distinct = distinct schedule digests",
 		Families:       []famPlan{{Family: "idrace", Weight: 2}, {Family: "idraw", Weight: 2}},
 		QuickBudget:    45 * time.Second,
+		ThoroughBudget: 15 * time.Minute,
+	},
+	"C09": {
+		Level: "exploration",
+		Rule: "raw client role: 1-4 valid streams of all shapes (messages chunked arbitrarily) generated from the protocol grammar, interleaved, with 0-3 deviations drawn from {drop, duplicate, swap, id -> unknown / negative / another stream, wrong size, oversize chunk, bad or empty method name, continuation without envelope, bad revision, empty frame, absurd windows and window updates, extra half-close / cancel}, then a probe stream, then hang-up; the documented stream-id rules are run over the frame list to classify the expected outcome (stream-level vs tunnel-level); raw server role: scripted callers against a raw server that answers with {duplicate headers, message before headers, unknown ids, frames after close, oversize / mis-sized messages, empty frames, absurd window updates, settings mid-stream, close twice, no close}; both network roles, negotiated and legacy; " +
+			"non-trivial = at least one deviation was applied; distinct = distinct schedule digests",
+		Families:       []famPlan{{Family: "rawfuzz", Weight: 3}, {Family: "overrun", Weight: 1}, {Family: "idraw", Weight: 1}},
+		QuickBudget:    50 * time.Second,
 		ThoroughBudget: 15 * time.Minute,
 	},
 	"C10": {
